@@ -707,7 +707,9 @@ func c11RunConsul(h *c11SrcHistory, strict bool, report c11SrcReport) (loads, ev
 	if err != nil {
 		return 0, 0, err
 	}
-	kv := verifx.NewKVFake("fabio/cert")
+	// (its own prefix: watchers of finished histories keep polling their old address, which the
+	// kernel may hand to the fake of a later history)
+	kv := verifx.NewKVFake(fmt.Sprintf("fabio/cert-%d", atomic.AddInt64(&c11HTTPSeq, 1)))
 	defer kv.Close()
 	obs := &c11Observed{inner: ConsulSource{CertURL: kv.URL()}, out: make(chan []tls.Certificate)}
 	cfg, err := TLSConfig(obs, strict, 0, 0, nil)
@@ -806,7 +808,11 @@ func c11RunConsul(h *c11SrcHistory, strict bool, report c11SrcReport) (loads, ev
 			prev := t0
 			for _, q := range qs {
 				if gap := q.At.Sub(prev); gap < c11Refresh/3 {
-					report("spin", step.Kind, step.Content, "", fmt.Sprintf("load %d (%s %s): the failing store was queried again after %v", j+1, step.Kind, step.Content, gap))
+					var ql []string
+					for _, x := range qs {
+						ql = append(ql, fmt.Sprintf("+%v index=%d store=%d", x.At.Sub(t0).Round(time.Millisecond), x.Index, x.Cur))
+					}
+					report("spin", step.Kind, step.Content, "", fmt.Sprintf("load %d (%s %s): the failing store was queried again after %v; queries since the failure began: %v", j+1, step.Kind, step.Content, gap, ql))
 					return loads, evals, nil
 				}
 				prev = q.At
